@@ -391,6 +391,13 @@ size_t LzmaSynth::emit(RangeEnc &rc, SynthRng &rng, size_t nsym, size_t max_out,
 			uint64_t in_dict0 = o.size() - dict_start;
 			uint64_t avail0 = in_dict0 < dict_size ? in_dict0 : dict_size;
 			unsigned ps0 = (unsigned)in_dict0 & ((1u << m.pb) - 1);
+			if (rng.chance(200) && k > 0) {
+				// an end-of-payload marker before the declared size is reached; the data ends here
+				emit_end_marker(rc);
+				rng.eopm_extra = 1 + (unsigned)rng.below(30);
+				++rng.illegal_emitted;
+				break;
+			}
 			unsigned how = (unsigned)rng.below(3);   // 0 match, 1 short rep, 2 long rep0
 			if (how != 0 && m.rep[0] < avail0) how = 0;   // the rep would be legal here
 			uint32_t dist;
@@ -556,12 +563,14 @@ Bytes synth_alone(SynthRng &rng, int lc, int lp, int pb, uint32_t dict, bool kno
 	s.dict_size = dict ? dict : 1;   // the generator honours the declared size exactly
 	RangeEnc rc;
 	s.emit(rc, rng, nsym, (size_t)1 << 22, features);
-	if (eopm || !known_size) { s.emit_end_marker(rc); if (features) *features |= SF_EOPM; }
+	bool eopm_mid = rng.eopm_extra != 0;   // the data already ends with a (premature) marker
+	if (!eopm_mid && (eopm || !known_size)) { s.emit_end_marker(rc); if (features) *features |= SF_EOPM; }
 	rc.flush();
 	Bytes out;
 	out.push_back(props_byte(lc, lp, pb));
 	for (int i = 0; i < 4; ++i) out.push_back((uint8_t)(dict >> (8 * i)));
-	uint64_t size = known_size ? plain.size() : UINT64_MAX;
+	uint64_t size = known_size ? plain.size() + rng.eopm_extra : UINT64_MAX;
+	rng.eopm_extra = 0;
 	for (int i = 0; i < 8; ++i) out.push_back((uint8_t)(size >> (8 * i)));
 	out.insert(out.end(), rc.out.begin(), rc.out.end());
 	return out;
@@ -641,7 +650,9 @@ Bytes synth_lzma2(SynthRng &rng, uint32_t dict, size_t nchunks, Bytes &plain, un
 			continue;
 		}
 		rc.flush();
-		size_t usize = plain.size() - before, csize = rc.out.size();
+		size_t usize = plain.size() - before + rng.eopm_extra, csize = rc.out.size();
+		rng.eopm_extra = 0;
+		if (usize > (1u << 21)) usize = 1u << 21;
 		out.push_back((uint8_t)(0x80 | (level << 5) | (((usize - 1) >> 16) & 0x1F)));
 		out.push_back((uint8_t)((usize - 1) >> 8)); out.push_back((uint8_t)(usize - 1));
 		out.push_back((uint8_t)((csize - 1) >> 8)); out.push_back((uint8_t)(csize - 1));
